@@ -536,6 +536,9 @@ func (s MsgServer) Claim(c context.Context, msg *types.MsgClaim) (*types.MsgClai
 }
 
 func (s MsgServer) Confirm(c context.Context, msg *types.MsgConfirm) (*types.MsgConfirmResponse, error) {
+	if msg.Confirm == nil {
+		return nil, types.ErrInvalid.Wrapf("empty confirm")
+	}
 	confirm, ok := msg.Confirm.GetCachedValue().(types.Confirm)
 	if !ok {
 		return nil, types.ErrInvalid.Wrapf("invalid claim")
